@@ -50,6 +50,132 @@ def ceil_log2_ratio(n, L):
     return k
 
 
+def judge_fit(ck, xr, rec, model, desc, cases, meta, time_limited=False):
+    """Oracle of the statement on one recorded fit (sizes per split, leaf bound, depth bound, quota, rows the leaf models were trained on) and the
+    Coq `build` case of every tree.  With a time limit the loop over trees / tree iterations may legitimately stop early (at least one tree is built);
+    the shape of every tree that IS built is judged exactly as without one."""
+    i, n, Lm, f, quota, method, kind = desc['i'], desc['n'], desc['L'], desc['f'], desc['quota'], desc['method'], desc['data']
+    n_trees, tree_iters = desc['n_trees'], desc['tree_iters']
+    tag = f"t{i}" if time_limited else f"{i}"
+    site = 'fit-shape-timelimit' if time_limited else 'fit-shape'
+    if rec.error is None and any(r.rec_empty_val for r in rec.rfms):
+        ck.count('fits with a leaf whose validation set was empty (leaf scored on its own rows by the harness)')
+    ck.count(f'method={method}'); ck.count(f'data={kind}'); ck.count(f'f={f}'); ck.count(f'quota={quota}')
+    if rec.error is not None:
+        # with a quota the forced splits can be infeasible (a child of size 0): the property only claims honoured quotas
+        ck.case(dict(desc, error=rec.error[0]))
+        ck.violation(f'fit did not return normally ({rec.error}) on {desc}', dict(desc, error=rec.error),
+                     key=json.dumps(dict(site='fit-timelimit' if time_limited else 'fit', error=rec.error[0], method=method, data=kind)))
+        return
+    ck.count(f'n_trees={n_trees}')
+    ck.count(f'tree_iters={tree_iters}')
+    if time_limited:
+        if not (1 <= len(model.trees) <= n_trees and len(model.trees) <= len(rec.trees) <= n_trees * (1 + tree_iters)):
+            ck.violation(f'{len(rec.trees)} trees built / {len(model.trees)} held, between 1 and {n_trees} x (1 + {tree_iters} iterations) expected '
+                         f'under a time limit, on {desc}', dict(desc), key='tree-count-timelimit')
+    else:
+        if len(rec.trees) != n_trees * (1 + tree_iters) and not (rec.trees and rec.trees[-1]['kind'] == 'leaf'):
+            ck.violation(f'{len(rec.trees)} trees built, {n_trees} x (1 + {tree_iters} iterations) requested, on {desc}', dict(desc), key='tree-count')
+        if len(model.trees) != min(n_trees, len(rec.trees) // (1 + tree_iters)) and not (rec.trees and rec.trees[-1]['kind'] == 'leaf'):
+            ck.violation(f'{len(model.trees)} trees held, {n_trees} requested, on {desc}', dict(desc), key='tree-held')
+    for ti, troot in enumerate(rec.trees):
+        sh = xr.shape_of(troot)
+        info = dict(depths=[], splits=0)
+        probs = oracle_shape(sh, Lm, f, quota, 0, info)
+        if f == 0.0 and quota is None and max(info['depths']) > ceil_log2_ratio(n, Lm):
+            probs.append(f'leaf depth {max(info["depths"])} > ceil(log2(n/L)) = {ceil_log2_ratio(n, Lm)}')
+        if quota is not None and info['splits'] < quota:
+            probs.append(f'tree {ti}: only {info["splits"]} splits made, {quota} requested')
+        for lf in xr.leaves_of(troot):
+            ntrain = int(lf['rfm'].rec_train[0].shape[0])
+            if ntrain > Lm:
+                probs.append(f'leaf model trained on {ntrain} > {Lm} samples')
+        if time_limited and f == 0.0 and quota is None:
+            # zero overlap, no forced splits: the statement fixes the leaf sizes and depths completely (ceil half left, floor half right, down to <= L)
+            exp = halving_leaves(n, Lm)
+            got = leaves_with_depth(sh)
+            if got != exp:
+                probs.append(f'leaves (size, depth) left to right {got[:12]}{"..." if len(got) > 12 else ""}; the ceil/floor halving of n={n} down to '
+                             f'<= {Lm} gives {len(exp)} leaves {exp[:12]}{"..." if len(exp) > 12 else ""}')
+        ck.case(dict(desc, tree=ti, shape=str(sh)[:300], depth=max(info['depths'])), nontrivial=info['splits'] >= 1,
+                sample=(info['splits'] >= 2))
+        ck.count(f'depth={max(info["depths"])}')
+        for p_ in probs:
+            ck.violation(p_ + f' on {desc}', dict(desc, tree=ti, shape=sh, problem=p_),
+                         key=json.dumps(dict(site=site, n=n, L=Lm, f=f, quota=quota, tree=ti)))
+        q = 'None' if quota is None else f'(Some {quota})'
+        coq = f'bres_eqb (build {n + 2}%nat {Lm} (ovf {coq_float(f)}) {q} 0 {n}) {xr.coq_shape(sh)}'
+        cases.append((f'{tag}.{ti}', coq))
+        meta[f'{tag}.{ti}'] = desc
+
+
+def halving_leaves(m, L, depth=0):
+    """(size, depth) of the leaves, left to right, straight from the statement for zero overlap and no forced splits"""
+    if m <= L:
+        return [(m, depth)]
+    return halving_leaves(m - m // 2, L, depth + 1) + halving_leaves(m // 2, L, depth + 1)
+
+
+def leaves_with_depth(sh, depth=0):
+    if sh[0] == 'L':
+        return [(sh[1], depth)]
+    return leaves_with_depth(sh[2], depth + 1) + leaves_with_depth(sh[3], depth + 1)
+
+
+# time budgets: spent before the first node (zero in every numeric type the option accepts, negative, below the clock resolution), spent somewhere inside the
+# tree (timing dependent: deeper / right-hand subtrees), and never spent (large, infinite)
+SPENT_BUDGETS = [0, 0.0, 1e-9, -1.0, np.float64(0.0), 1e-7, -0.0, 1e-12, np.float32(0.0), -1e-3]
+OTHER_BUDGETS = [1e-4, 1e-3, 5e-3, 0.02, 30.0, float('inf')]
+
+
+def timed_fits(ck, xr, cases, meta):
+    rng = np.random.default_rng(ck.seed + 60613)
+    nfits = ck.n(36, 200)
+    for i in range(nfits):
+        spent = i < 2 * len(SPLIT_METHODS) or rng.random() < 0.5        # the first 20 fits: every split method twice with a budget that is certainly spent
+        tl = SPENT_BUDGETS[i % len(SPENT_BUDGETS)] if spent else OTHER_BUDGETS[int(rng.integers(0, len(OTHER_BUDGETS)))]
+        L = int(rng.choice([2, 3, 4, 5, 8, 12, 20, 33]))
+        k = int(rng.integers(1, 4))                                     # at least one split by size: the budget is spent at a node that is too large for a leaf
+        n = int(max(L + 1, L * 2 ** k + rng.integers(-3, 4))) if rng.random() < 0.75 else int(rng.integers(L + 1, 6 * L + 2))
+        n = min(n, 300)
+        fcands = [f for f in [0.05, 0.1, 0.25] if (1 - 2 * f) * L >= 4]
+        f = float(rng.choice(fcands)) if fcands and rng.random() < 0.25 else 0.0
+        quota = None
+        n_trees, tree_iters = int(rng.choice([1, 1, 2])), 0
+        method = SPLIT_METHODS[i % len(SPLIT_METHODS)]
+        kind = DATA_KINDS[(i // len(SPLIT_METHODS) + i) % len(DATA_KINDS)]
+        if i % 7 == 5:
+            # forced splits under a time limit: n <= L, the quota (not the size) drives the splits
+            quota = int(rng.integers(1, 4)); n = int(rng.integers(2 ** (quota + 1), 2 ** (quota + 1) + 12)); L = n + int(rng.integers(0, 5)); f = 0.0
+        elif i % 7 == 3 and f == 0.0 and n >= 8:
+            quota = int(rng.integers(1, 3))                             # a small quota next to size-driven splits
+        if method == 'random_global_agop':
+            tree_iters = int(rng.choice([0, 1, 2]))
+        d = int(rng.integers(2, 6))
+        if kind == 'constcol':
+            d = max(d, 4)
+        task = ['reg', 'class'][int(rng.integers(0, 2))]
+        X = xr.make_X(kind, n, d, rng)
+        y = xr.make_y(task, X, rng)
+        nv = int(rng.integers(3, 30))
+        Xv = xr.make_X('random' if kind != 'integer' else 'integer', nv, d, rng)
+        yv = xr.make_y(task, Xv, rng)
+        kw = {}
+        if method == 'fixed_vector':
+            kw['fixed_vector'] = torch.tensor(rng.standard_normal(d), dtype=torch.float32)
+        xr.seed_all(int(rng.integers(0, 2 ** 31)))
+        model = xr.xRFM(rfm_params=xr.default_rfm_params(iters=(1 if tree_iters else 0), reg=1e-2), max_leaf_size=L, number_of_splits=quota,
+                        split_method=method, overlap_fraction=f, verbose=False, use_temperature_tuning=False, n_trees=n_trees,
+                        n_tree_iters=tree_iters, refill_size=int(rng.integers(1, 12)), time_limit_s=tl, **kw)
+        Lm = int(model.max_leaf_size)
+        rec = xr.fit_recorded(model, torch.tensor(X), torch.tensor(y), torch.tensor(Xv), torch.tensor(yv), timeout=120, tolerate_empty_val=True)
+        desc = dict(kind='fit', i=i, n=n, L=Lm, f=f, quota=quota, method=method, data=kind, d=d, task=task, n_trees=n_trees, tree_iters=tree_iters,
+                    time_limit_s=float(tl), time_limit_type=type(tl).__name__, seed=ck.seed)
+        ck.count('fits with a time limit')
+        ck.count('time limit certainly spent at the root (<= 0 or below the clock resolution)' if spent else f'time_limit_s={tl}')
+        judge_fit(ck, xr, rec, model, desc, cases, meta, time_limited=True)
+
+
 def run(ck):
     from harness import xr
     ck.rule = ('cases = (a) every (f, n) of the real _get_balanced_split on n projections, compared with the Coq counts; '
@@ -201,43 +327,12 @@ def run(ck):
         rec = xr.fit_recorded(model, torch.tensor(X), yt, torch.tensor(Xv), torch.tensor(yv), timeout=120,
                               tolerate_empty_val=True)
         desc = dict(kind='fit', i=i, n=n, L=Lm, f=f, quota=quota, method=method, data=kind, d=d, task=task, n_trees=n_trees, tree_iters=tree_iters, seed=ck.seed)
-        if rec.error is None and any(r.rec_empty_val for r in rec.rfms):
-            ck.count('fits with a leaf whose validation set was empty (leaf scored on its own rows by the harness)')
-        ck.count(f'method={method}'); ck.count(f'data={kind}'); ck.count(f'f={f}'); ck.count(f'quota={quota}')
-        if rec.error is not None:
-            # with a quota the forced splits can be infeasible (a child of size 0): the property only claims honoured quotas
-            ck.case(dict(desc, error=rec.error[0]))
-            ck.violation(f'fit did not return normally ({rec.error}) on {desc}', dict(desc, error=rec.error),
-                         key=json.dumps(dict(site='fit', error=rec.error[0], method=method, data=kind)))
-            continue
-        ck.count(f'n_trees={n_trees}')
-        ck.count(f'tree_iters={tree_iters}')
-        if len(rec.trees) != n_trees * (1 + tree_iters) and not (rec.trees and rec.trees[-1]['kind'] == 'leaf'):
-            ck.violation(f'{len(rec.trees)} trees built, {n_trees} x (1 + {tree_iters} iterations) requested, on {desc}', dict(desc), key='tree-count')
-        if len(model.trees) != min(n_trees, len(rec.trees) // (1 + tree_iters)) and not (rec.trees and rec.trees[-1]['kind'] == 'leaf'):
-            ck.violation(f'{len(model.trees)} trees held, {n_trees} requested, on {desc}', dict(desc), key='tree-held')
-        for ti, troot in enumerate(rec.trees):
-            sh = xr.shape_of(troot)
-            info = dict(depths=[], splits=0)
-            probs = oracle_shape(sh, Lm, f, quota, 0, info)
-            if f == 0.0 and quota is None and max(info['depths']) > ceil_log2_ratio(n, Lm):
-                probs.append(f'leaf depth {max(info["depths"])} > ceil(log2(n/L)) = {ceil_log2_ratio(n, Lm)}')
-            if quota is not None and info['splits'] < quota:
-                probs.append(f'tree {ti}: only {info["splits"]} splits made, {quota} requested')
-            for lf in xr.leaves_of(troot):
-                ntrain = int(lf['rfm'].rec_train[0].shape[0])
-                if ntrain > Lm:
-                    probs.append(f'leaf model trained on {ntrain} > {Lm} samples')
-            ck.case(dict(desc, tree=ti, shape=str(sh)[:300], depth=max(info['depths'])), nontrivial=info['splits'] >= 1,
-                    sample=(info['splits'] >= 2))
-            ck.count(f'depth={max(info["depths"])}')
-            for p_ in probs:
-                ck.violation(p_ + f' on {desc}', dict(desc, tree=ti, shape=sh, problem=p_),
-                             key=json.dumps(dict(site='fit-shape', n=n, L=Lm, f=f, quota=quota, tree=ti)))
-            q = 'None' if quota is None else f'(Some {quota})'
-            coq = f'bres_eqb (build {n + 2}%nat {Lm} (ovf {coq_float(f)}) {q} 0 {n}) {xr.coq_shape(sh)}'
-            cases.append((f'{i}.{ti}', coq))
-            meta[f'{i}.{ti}'] = desc
+        judge_fit(ck, xr, rec, model, desc, cases, meta)
+
+    # ---- (b') real fits WITH A TIME LIMIT: the statement is unconditional in the options, so a configured (and spent) time budget may shorten the
+    # leaf models' training and the loop over trees, but it must not change which rows a leaf is trained on ----
+    timed_fits(ck, xr, cases, meta)
+
     res = ck.run_bool_cases('fits', HEADER, cases, shard=50)
     bad = [meta[k] for k, v in res.items() if v is not True]
     ck.obligation(f'correspondence: tree shapes of {len(cases)} real fits == Coq build', 'correspondence', not bad,
